@@ -52,12 +52,16 @@ fn real_main() -> i32 {
             let mut cases: Vec<serde_json::Value> = (index - history..=index).map(|i| driver::regenerate_case(prop, seed, i, &avoid)).collect();
             // `--pre a-b`: runs a..=b of the stream first (any order of indexes)
             if let Some(r) = arg_value(&args, "--pre") {
-                let mut it = r.split('-').filter_map(|x| x.parse::<u64>().ok());
-                if let (Some(a), Some(b)) = (it.next(), it.next()) {
-                    let mut pre: Vec<serde_json::Value> = (a..=b).map(|i| driver::regenerate_case(prop, seed, i, &avoid)).collect();
-                    pre.extend(cases);
-                    cases = pre;
+                // (several ranges separated by commas: `267-267,360-360`)
+                let mut pre: Vec<serde_json::Value> = vec![];
+                for part in r.split(',') {
+                    let mut it = part.split('-').filter_map(|x| x.parse::<u64>().ok());
+                    if let (Some(a), Some(b)) = (it.next(), it.next()) {
+                        pre.extend((a..=b).map(|i| driver::regenerate_case(prop, seed, i, &avoid)));
+                    }
                 }
+                pre.extend(cases);
+                cases = pre;
             }
             if args.iter().any(|a| a == "--print") {
                 println!("{}", serde_json::to_string_pretty(cases.last().unwrap()).unwrap());
